@@ -905,6 +905,74 @@ func c10Run(rc *core.RunCtx) {
 			})
 		}
 	}
+	// resource shapes a program can take without recursing: 19..64 blocks open at once in one
+	// frame (loops, try/finally, try/except, with, and handlers being executed), inside a
+	// function and at module level; 100..300 nested parentheses / list displays / calls
+	rc.Part = "nesting"
+	{
+		type kind struct{ name, open, close string }
+		kinds := []kind{
+			{"for", "for i%d in (1,):\n", ""}, {"while", "while x:\n", ""}, {"try-finally", "try:\n", "finally:\n pass\n"},
+			{"try-except", "try:\n", "except KeyError:\n pass\n"}, {"with", "with CM:\n", ""}, {"handler", "try:\n raise KeyError\nexcept KeyError:\n", ""},
+			{"mixed", "", ""},
+		}
+		indent := func(src string, n int) string {
+			pad := strings.Repeat(" ", n)
+			var b strings.Builder
+			for _, l := range strings.Split(strings.TrimSuffix(src, "\n"), "\n") {
+				b.WriteString(pad + l + "\n")
+			}
+			return b.String()
+		}
+		var progs []struct{ name, src string }
+		for _, k := range kinds {
+			for _, n := range []int{19, 20, 21, 25, 64} {
+				var head, tail []string
+				for d := 0; d < n; d++ {
+					kk := k
+					if k.name == "mixed" {
+						kk = kinds[d%6]
+					}
+					open := kk.open
+					if strings.Contains(open, "%d") {
+						open = fmt.Sprintf(open, d)
+					}
+					// a handler body is one level deeper than its try
+					lines := strings.Split(strings.TrimSuffix(open, "\n"), "\n")
+					for _, l := range lines {
+						head = append(head, strings.Repeat(" ", d)+l+"\n")
+					}
+					if kk.close != "" {
+						tail = append([]string{indent(kk.close, d)}, tail...)
+					}
+				}
+				body := strings.Repeat(" ", n) + "x = 0\n"
+				core := strings.Join(head, "") + body + strings.Join(tail, "")
+				pre := "class C:\n def __enter__(self):\n  return self\n def __exit__(self, *a):\n  return False\nCM = C()\nx = 1\n"
+				progs = append(progs, struct{ name, src string }{k.name + "-" + itoa(n) + "-module", pre + core})
+				progs = append(progs, struct{ name, src string }{k.name + "-" + itoa(n) + "-def", pre + "def f(x):\n" + indent(core, 1) + " return x\nf(1)\n"})
+			}
+		}
+		for _, n := range []int{100, 200, 300} {
+			progs = append(progs, struct{ name, src string }{"parens-" + itoa(n), "x = " + strings.Repeat("(", n) + "1" + strings.Repeat(")", n) + "\n"})
+			progs = append(progs, struct{ name, src string }{"lists-" + itoa(n), "x = " + strings.Repeat("[", n) + "1" + strings.Repeat("]", n) + "\nrepr(x)\n"})
+			progs = append(progs, struct{ name, src string }{"calls-" + itoa(n), "def i(v):\n return v\nx = " + strings.Repeat("i(", n) + "1" + strings.Repeat(")", n) + "\n"})
+		}
+		for _, pr := range progs {
+			if rc.Expired() || rc.Done() {
+				return
+			}
+			if !rc.Take() {
+				continue
+			}
+			src := pr.src
+			f := core.Fields{"part": "nesting", "program": pr.name}
+			rc.Guard(f, func() string { return src }, func() {
+				err := runSrc(src, py.ExecMode, py.None, py.None, py.None)
+				rc.Eval(outcomeOf(err), "nesting:"+pr.name)
+			})
+		}
+	}
 	// setitem with three operands over the reduced universe
 	rc.Part = "ternary"
 	for _, i := range small {
